@@ -30,6 +30,10 @@ structure Node where
   /-- rule names in constraint order: span of the name token, or a synthesised name -/
   rules : List (Sum (Nat × Nat) String) := []
   comment : Option (Nat × Nat) := none
+  /-- parallel to `rules`: span of the rule's VALUE — the literal token; for `or` / `enum` / `allOf` the span from
+  the first to the last byte of the value (bracket to bracket for containers); for a type shortcut in value
+  position the span of the shortcut -/
+  ruleVals : List (Option (Nat × Nat)) := []
   deriving Repr, Inhabited
 
 inductive Mode | default | inline | multi
@@ -158,9 +162,15 @@ def nodeLoad (src : Array UInt8) (st : St) (e : Ev) : M St :=
       if isNew then pure { st1 with leaf := leaf', perLine := st1.perLine + 1, last := leaf' }
       else pure { st1 with leaf := leaf' }
 
-def addRule (st : St) (r : Sum (Nat × Nat) String) : St :=
+def addRule (st : St) (r : Sum (Nat × Nat) String) (v : Option (Nat × Nat) := none) : St :=
   match st.rsNode with
-  | some i => updNode st i (fun n => { n with rules := n.rules ++ [r] })
+  | some i => updNode st i (fun n => { n with rules := n.rules ++ [r], ruleVals := n.ruleVals ++ [v] })
+  | none => st
+
+/-- the value of the rule added last ends here: record its span -/
+def setLastVal (st : St) (v : Nat × Nat) : St :=
+  match st.rsNode with
+  | some i => updNode st i (fun n => { n with ruleVals := n.ruleVals.dropLast ++ [some v] })
   | none => st
 
 /-- `ruleLoader.load`: one event inside an annotation -/
@@ -221,20 +231,21 @@ def ruleLoad (src : Array UInt8) (st : St) (e : Ev) : M St :=
         | _ => throw (.ruleValueType e.b)
   | .valueLiteral =>
     match e.ty with
-    | .litE => pure { (addRule st (.inl st.ruleName)) with rs := .valueEnd }
+    | .litE => pure { (addRule st (.inl st.ruleName) (some (e.b, e.e))) with rs := .valueEnd }
     | _ => throw (.loader e.b)
   | .embContainer d =>
     match e.ty with
     | .arrB | .objB => pure { st with rs := .embContainer (d + 1) }
-    | .arrE | .objE => if d == 1 then pure { st with rs := .valueEnd } else pure { st with rs := .embContainer (d - 1) }
+    | .arrE | .objE =>
+      if d == 1 then pure { (setLastVal st (e.b, e.e)) with rs := .valueEnd } else pure { st with rs := .embContainer (d - 1) }
     | _ => pure st
   | .embLiteral =>
     match e.ty with
-    | .litE => pure { st with rs := .valueEnd }
+    | .litE => pure { (setLastVal st (e.b, e.e)) with rs := .valueEnd }
     | _ => pure st
   | .embShortcut =>
     match e.ty with
-    | .tsE => pure { st with rs := .valueEnd }
+    | .tsE => pure { (setLastVal st (e.b, e.e)) with rs := .valueEnd }
     | _ => pure st
   | .valueEnd =>
     match e.ty with
@@ -259,7 +270,7 @@ def step (src : Array UInt8) (st : St) (e : Ev) : M St :=
       match st.last with
       | some i =>
         let nm := if hasPipe (slice src e.b e.e) then "or" else "type"
-        pure (updNode st i (fun n => { n with rules := n.rules ++ [.inr nm] }))
+        pure (updNode st i (fun n => { n with rules := n.rules ++ [.inr nm], ruleVals := n.ruleVals ++ [some (e.b, e.e)] }))
       | none => throw (.internal "shortcut without node")
   | .mlAnnB => pure (startRule .multi)
   | .mlAnnE => pure { st with mode := .default }
